@@ -607,6 +607,15 @@ func identical(a, b Value) bool {
 	case VField:
 		y, ok := b.(VField)
 		return ok && x.r == y.r
+	case BigV:
+		y, ok := b.(BigV)
+		if !ok {
+			return false
+		}
+		if x.c != nil && y.c != nil {
+			return x.c.Cmp(y.c) == 0
+		}
+		return x.lin != nil && y.lin != nil && x.lin.smt() == y.lin.smt()
 	case FuncV:
 		y, ok := b.(FuncV)
 		return ok && x.fn == y.fn
